@@ -904,10 +904,13 @@ def get_charnos(node: ast.AST, source: str, keep_first_indent: bool = False) -> 
     if code and code[-1] == " ":
         whitespace = max(re.findall(r" *\Z$", code), key=len)
         end_charno -= len(whitespace)
-    if source[start_charno - 1] == "@" and isinstance(
-        node, (ast.ClassDef, ast.FunctionDef, ast.AsyncFunctionDef)
-    ):
-        start_charno -= 1
+    if start is not node:
+        # The @ of the first decorator comes before it, perhaps with whitespace or parentheses
+        # in between. Nodes without decorators have nothing before them: the character before
+        # the start of the source is not its last character.
+        at_sign = re.search(r"@[\s(\\]*\Z", source[:start_charno])
+        if at_sign:
+            start_charno = at_sign.start()
     if keep_first_indent:
         whitespace = max(re.findall(r" *\Z$", source[:start_charno]), key=len)
         start_charno -= len(whitespace)
